@@ -25,7 +25,6 @@ K_INS = "not decided: lives in InscriptionUpdater::index_inscriptions over redb 
 K_ARTIFACT = "not decided: the deciding function RuneUpdater::index_runes (edict allocation, pointer, burns) cannot be taken by either verifier - Kani 0.68 aborts with an internal compiler error on every read of the discriminant of ordinals::Artifact (niche in the 128-bit tag of an Option<u128>; measured with probe harnesses, DESIGN §0.6), and Verus rejects its HashMap / closure / iterator-adapter code; the kernel functions around it are under contract (C10 mint, C11 etched / create_rune_entry, C08 unallocated)"
 K_ORD = "not decided: the functions live in the `ord` crate outside the value-level files and small kernels that engine E2 reaches (DESIGN §0.2, §6)"
 UNBUILT = {
- "C02": K_FIFO,
  "C09": K_ARTIFACT + ". The arithmetic it uses (Lot, even split) is under contract in C08",
  "C16": "not decided as stated (whole-chain totality): panic-freedom obligations are discharged for the functions under contract in C25/C26 (varint, Runestone::integers), C27 (from_value, pointer), C31 (parsers), C35 (decoders of stored values) and C10/C08 (mint, update, unallocated never error), but envelope parsing, Properties::from_cbor, index_inscriptions and index_runes are not under contract, so the property as a whole is not claimed",
  "C20": K_ORD + "; TransactionBuilder is ~1000 lines over BTreeMap/Vec state with f64 fee arithmetic",
